@@ -168,3 +168,66 @@ def run(prog, chk):
         else:
             chk.ok("R15.3", "pure:" + fn, "%d workspace bodies reachable; no mutable static / thread-local / env / clock / fs access" % len([n for n in reach if prog.body(n) is not None]), function=fn)
     chk.note("bodies_in_purity_closure", nb)
+    completeness_prefix_rule(prog, chk)
+
+
+PREFIX_PRESERVING = ("strip_suffix", "trim_end", "trim_end_matches", "trim_right", "trim_right_matches", "strip_suffix_of", "as_str", "as_ref", "deref",
+                     "borrow", "to_owned", "to_string", "clone", "from", "into", "unwrap_or", "unwrap_or_default", "branch", "unwrap", "expect")
+PREFIX_DROPPING = ("rsplit_once", "split_once", "rsplit", "rsplitn", "split", "splitn", "lines", "split_terminator", "rsplit_terminator",
+                   "split_whitespace", "strip_prefix", "trim_start", "trim_start_matches", "trim_left", "trim", "trim_matches", "last", "nth",
+                   "next_back", "split_at", "chars", "char_indices", "skip", "rev")
+
+
+def completeness_prefix_rule(prog, chk):
+    """R15.4: the completeness decision parses the accumulated text from its beginning. Tokenizer state at any point (open quote,
+    comment, here-document, nesting) is a function of *all* text before it, so a parse that contributes to 'complete / needs more
+    input' must be given the accumulated input itself or that input with something stripped from its END; a sub-slice that drops
+    leading text (last line, text after a separator, a suffix range) is judged without its context."""
+    chk.rule("R15.4", "in the input-completeness decision every text handed to the parser is the accumulated input or a prefix of it "
+                      "(only suffix-stripping operations on the way): no parse of a tail or a single line")
+    n = 0
+    for b in prog.all_bodies({"brush_interactive"}):
+        if "::completeness::" not in b.name and "completeness" not in (b.file or ""):
+            continue
+        d = defs_of(b)
+        for bb, t in b.calls():
+            cal = t.best_callee() or t.callee or ""
+            if not (cal.endswith(("Shell::parse_string", "Parser::parse_program", "tokenize_str", "tokenize_str_with_options")) or
+                    cal.startswith("brush_parser::") and cal.rsplit("::", 1)[-1].startswith(("parse", "tokenize"))):
+                continue
+            n += 1
+            fn = owner(b.name)
+            text = t.args[1] if cal.endswith("Shell::parse_string") and len(t.args) > 1 else t.args[0]
+            flows = flow_back(b, d, text, all_args=False)
+            vias = set()
+            for f in flows:
+                vias |= set(f.via)
+            drops = sorted(v for v in vias if v.rsplit("::", 1)[-1] in PREFIX_DROPPING)
+            # str Index with a RangeFrom / Range with non-zero start also drops the beginning
+            for f in flows:
+                if f.kind == 'call' and (f.node.best_callee() or "").rsplit("::", 1)[-1] in ("index", "get", "get_unchecked") and len(f.node.args) > 1:
+                    vias.discard(f.node.best_callee())
+                    rng = [g for g in flow_back(b, d, f.node.args[1], all_args=True) if g.kind == 'agg' and "ops::range::" in (g.node.raw.get("adt") or "")]
+                    for g in rng:
+                        kind = g.node.raw["adt"].rsplit("::", 1)[-1]
+                        starts_at_zero = kind.startswith("RangeTo") or kind == "RangeFull" or \
+                            (kind in ("Range", "RangeInclusive") and g.node.ops and g.node.ops[0].const is not None and g.node.ops[0].const.value == 0)
+                        if not starts_at_zero:
+                            drops.append("slice [" + kind + " not starting at 0]")
+                    if not rng:
+                        drops.append("slice with unrecognised bounds")
+            unknown = sorted(v for v in vias if v.rsplit("::", 1)[-1] not in PREFIX_PRESERVING and v.rsplit("::", 1)[-1] not in PREFIX_DROPPING)
+            roots = [f for f in flows if f.kind == 'arg']
+            if drops:
+                chk.fail("R15.4", fn, "completeness-parses-a-tail:" + drops[0].rsplit("::", 1)[-1],
+                         "%s decides completeness from a parse of text that went through %s at %s: the beginning of the accumulated input is dropped, so quote / "
+                         "comment / here-document state carried in from earlier lines is lost and a chunk may be run before its continuation arrives"
+                         % (fn, ", ".join(x.rsplit("::", 2)[-1] if "::" in x else x for x in drops[:3]), b.loc(t.line)))
+            elif unknown or not roots:
+                chk.fail("R15.4", fn, "completeness-text-unrecognised",
+                         "%s parses text of unrecognised provenance (%s) at %s: cannot show it is a prefix of the accumulated input"
+                         % (fn, ", ".join(unknown[:4]) or "no parameter reached", b.loc(t.line)))
+            else:
+                chk.ok("R15.4", "prefix:%s:%s" % (fn.rsplit("::", 1)[-1], "+".join(sorted(v.rsplit("::", 1)[-1] for v in vias)) or "input"),
+                       "parsed text is parameter `%s`%s" % (b.local_name(roots[0].node), " with only suffix-stripping on the way" if vias else ""), function=fn)
+    chk.floor("R15.4", "parses inside the completeness decision", n, 2)
